@@ -331,3 +331,40 @@ Example C09_cloudrain_hyp_inhabited :
   c_wf C09_cloudrain_example = true /\ c_steps C09_cloudrain_example <> [] /\ c_unambiguous C09_cloudrain_example = true /\
   length (c_enc C09_cloudrain_example) = 58%nat.
 Proof. vm_compute. repeat split; try reflexivity; discriminate. Qed.
+
+(* ======================================================================================================
+   CAMx land-use files (Model/Landuse.v; Memmap reader hand-modelled; "the first 8 payload bytes decode as UTF-8"
+   is the boolean argument of lu_mm_read)
+   ====================================================================================================== *)
+From PNC Require Import Model.Landuse Proofs.LanduseProofs.
+
+Theorem C09_landuse_dec_enc : forall c, lu_wf c = true -> lu_dec (lu_rows c) (lu_cols c) (lu_enc c) = Some c.
+Proof. exact lu_dec_enc. Qed.
+Print Assumptions C09_landuse_dec_enc.
+
+(* old-style and new-style files whose first 8 payload bytes decode (always the case for new-style files: 'LUCAT11 ') and,
+   old style, do not read 'LUCAT11 ' / 'LUCAT26 ': the reader presents exactly the content *)
+Theorem C09_landuse_reader_presents_content : forall c, lu_wf c = true -> lu_sniff_ok c = true ->
+  lu_mm_read true (lu_rows c) (lu_cols c) (lu_enc c) (4 * Z.of_nat (length (lu_enc c))) = Ok (lu_view_of c).
+Proof. exact lu_reader_presents_content. Qed.
+Print Assumptions C09_landuse_reader_presents_content.
+
+(* the style sniff decodes the first 8 payload bytes as text: on a valid old-style file whose first two values are no UTF-8
+   (bit pattern 0x9d000000 = 2634022912) the reader raises instead of presenting the data. Replays on the library:
+   finding landuse-sniff-decode (region 16). *)
+Definition C09_landuse_old : landuse :=
+  {| lu_new := false; lu_nland := 11; lu_rows := 1; lu_cols := 1; lu_fland := [2634022912; 0; 0; 0; 0; 0; 0; 0; 0; 0; 1065353216];
+     lu_opts := [(lu_key_TOPO, [1120403456])] |}.
+Theorem C09_landuse_undecodable_refuted :
+  lu_wf C09_landuse_old = true /\ lu_sniff_ok C09_landuse_old = true /\
+  (forall rows cols ws size, lu_mm_read false rows cols ws size = Err) /\
+  lu_mm_read false 1 1 (lu_enc C09_landuse_old) (4 * Z.of_nat (length (lu_enc C09_landuse_old))) <> Ok (lu_view_of C09_landuse_old).
+Proof. split; [reflexivity|]. split; [reflexivity|]. split; [exact lu_reader_undecodable|]. rewrite lu_reader_undecodable. discriminate. Qed.
+Print Assumptions C09_landuse_undecodable_refuted.
+
+Definition C09_landuse_new : landuse :=
+  {| lu_new := true; lu_nland := 11; lu_rows := 1; lu_cols := 2; lu_fland := map Z.of_nat (seq 100 22);
+     lu_opts := [(lu_key_LAI, [1; 2]); (lu_key_TOPO, [3; 4])] |}.
+Example C09_landuse_hyp_inhabited :
+  lu_wf C09_landuse_new = true /\ lu_sniff_ok C09_landuse_new = true /\ length (lu_enc C09_landuse_new) = 44%nat.
+Proof. vm_compute. repeat split. Qed.
